@@ -2001,7 +2001,7 @@ Proof.
   - (* Clone *)
     destruct (handle w h) as [obj|]; [|split; [exact H | discriminate]].
     destruct (h_err (get_tmpl w obj)); try (split; [exact H | discriminate]).
-    cbv zeta. unfold new_common, new_text, new_ns, new_tmpl. cbn [fst snd].
+    unfold clone_text, clone_member. cbv zeta. unfold new_common, new_text, new_ns, new_tmpl. cbv beta iota. cbn [fst snd].
     match goal with |- context [match ?res with None => (w, RErrCannotClone) | Some _ => _ end] =>
       assert (Hres : match res with Some w2 => winv w2 | None => True end); [|destruct res as [w2|]] end.
     2:{ cbn [fst snd]. split; [apply winv_add_handle; exact Hres | discriminate]. }
